@@ -421,6 +421,11 @@ def copy_obj(o):
     return o
 
 
+def flag_args(tok: str):
+    """`0` / `1`: the optional flag is passed; `d`: it is omitted (its default is True for all three flags)"""
+    return () if tok == "d" else (tok == "1",)
+
+
 def call_env(env, toks, objs):
     """one call of an entry point; (canonical result or `ERR <Class>`, result object)"""
     op = toks[0]
@@ -433,15 +438,15 @@ def call_env(env, toks, objs):
             name = toks[1]
             cls = env[name]
             if op == "encode":
-                r = cls.encode(objs[0], toks[2] == "1") if name == "32" else cls.encode(objs[0])
+                r = cls.encode(objs[0], *flag_args(toks[2])) if name == "32" else cls.encode(objs[0])
             elif op == "data":
-                r = cls.deinterleave_data_bits(objs[0]) if name == "32" else cls.deinterleave_data_bits(objs[0], toks[2] == "1")
+                r = cls.deinterleave_data_bits(objs[0]) if name == "32" else cls.deinterleave_data_bits(objs[0], *flag_args(toks[2]))
             elif op == "all":
                 r = cls.deinterleave_all_bits(objs[0])
             elif op == "cs":
                 r = cls.deinterleave_cs5_bits(objs[0]) if name == "128" else cls.deinterleave_crc8_bits(objs[0])
             elif op == "setparity":
-                r = cls.set_parity(objs[0], toks[2] == "1") if name == "32" else cls.set_parity(objs[0])
+                r = cls.set_parity(objs[0], *flag_args(toks[2])) if name == "32" else cls.set_parity(objs[0])
             elif op == "make":
                 r = cls.make_encoding_table()
             elif op == "fill":
@@ -543,7 +548,10 @@ class Hist:
         i = len(self.steps)
         self.steps.append(st)
         toks = list(st)
-        want = toks.pop()[2:] if toks[-1].startswith("?=") else None
+        want = want_arg = None
+        if toks[-1].startswith("?="):
+            # what the property promises for this call, given that the (last) argument holds `want_arg`
+            want, _, want_arg = toks.pop()[2:].partition("|")
         op = toks[0]
         if op in ("nop", "nop+"):
             out = "void"
@@ -596,17 +604,22 @@ class Hist:
                     if ref_is != arg_is:
                         self._bad("result-aliasing", i, f"{name}: whether the result is the argument object itself differs from "
                                   "the same call made first on a new copy of the class", ref_is, arg_is)
-                    for p, (o, fa) in enumerate(zip(objs, fargs)):
-                        if canon(o) != canon(fa):
-                            self._bad("argument-altered", i, f"{name} leaves its argument {p} in another state than the same call "
-                                      "made first on a new copy of the class", canon(fa), canon(o))
+                # arguments are read only; the two designed in-place writers: fill_encoding_table returns the table
+                # it was given (filled), set_parity returns the full column it was given (parity cell written)
+                for p, o in enumerate(objs):
+                    after = canon(o)
+                    writer = p == 0 and op in ("fill", "setparity") and arg_is[0] and not content.startswith("ERR")
+                    allowed = content if writer else before[p]
+                    if after != allowed:
+                        self._bad("argument-altered", i, f"{name} leaves its argument {p} in another state than "
+                                  + ("the object it returns" if writer else "it found it"), allowed, after)
                 if alias is not None and not any(arg_is):
                     self._bad("result-aliasing", i, f"{name} returns the very object that step {self.owner[alias]} "
                               f"({' '.join(self.steps[self.owner[alias]])[:60]}) handed out / the caller built", "a new object", f"@{alias}")
                 for p, o in enumerate(objs):
                     if canon(o) != before[p]:
                         self._touched(o)
-                if want is not None and content != want:
+                if want is not None and (not want_arg or before[-1] == want_arg) and content != want:
                     self._bad(PROMISE_KIND.get(op, "wrong-result"), i,
                               f"{name} does not return what the property promises for this call", want, content)
                 err = content.startswith("ERR")
@@ -634,7 +647,7 @@ class Hist:
         if arg[0] == "S" and cd.c and len(bits) != cd.n:
             return  # a list has no tobytes / is refused by ba2int: AttributeError / TypeError by design
         m = cd.message_of(bits)
-        even = toks[2] == "1" if cd.name == "32" else True
+        even = toks[2] != "0" if cd.name == "32" else True
         what_in = f"VBPTC{cd.name}.encode of the {len(bits)}-bit form of message {m}"
         if content.startswith("ERR"):
             self._bad("encode-raises", i, f"{what_in} raises", "on-air bits", content)
@@ -682,6 +695,16 @@ def compress(steps):
             alive.append(not dead)
         if not dead:
             out.append(tuple(f"@{new[int(t[1:])]}" if t.startswith("@") else t for t in toks))
+    return out
+
+
+def concat(hists):
+    """several histories one after the other as one history (handles renumbered)"""
+    out, off = [], 0
+    for steps in hists:
+        for st in steps:
+            out.append(tuple(f"@{int(t[1:]) + off}" if t.startswith("@") and t[1:].isdigit() else t for t in st))
+        off += sum(1 for st in steps if st[0] in PUSHING)
     return out
 
 
@@ -855,6 +878,15 @@ class Rel:
         return out
 
 
+def canon_lit(lit: str) -> str:
+    """canon() of the object a literal builds"""
+    return {"F": "B", "T": "S", "Y": "O"}.get(lit[0], lit[0]) + lit[1:]
+
+
+def promise(result: str, arg_lit: str) -> str:
+    return "?=" + result + "|" + canon_lit(arg_lit)
+
+
 class Target:
     """a call under observation: head tokens, the argument literal, what the property promises (or None),
     related argument literals [(label, literal)], and literals of other containers that the promise covers"""
@@ -866,8 +898,12 @@ class Target:
         self.rlen = rlen if rlen is not None else (content_len(promise) if promise else 0)
 
     def toks(self, arg=None, promised=True):
-        t = self.head + (arg or self.arg,)
-        return t + (("?=" + self.promise,) if (promised and self.promise is not None) else ())
+        """the call on `arg` (default: the literal); a held object is expected to hold the literal's content"""
+        arg = arg or self.arg
+        t = self.head + (arg,)
+        if not promised or self.promise is None:
+            return t
+        return t + (promise(self.promise, self.arg if arg.startswith("@") else arg),)
 
 
 def targets(rel: Rel):
@@ -880,13 +916,17 @@ def targets(rel: Rel):
             same = ["F:" + t] + (["S:" + t, "T:" + t, "L:" + t] if (cd.c == 0 or len(t) == cd.n) else [])
             T.append(Target(f"encode:{label}", ("encode", cd.name, e01), "B:" + t, "B:" + rel.cw[even],
                             rel.enc_relatives(t), same))
+    if cd.name == "32":
+        # the optional parity flag omitted (default: even)
+        T.append(Target("encode:message:flag-omitted", ("encode", cd.name, "d"), "B:" + m, "B:" + rel.cw[True],
+                        rel.enc_relatives(m), ["F:" + m, "S:" + m, "T:" + m, "L:" + m]))
     even = rng.choice(rel.parities)
     w = rel.cw[even]
     anyc = ["F:" + w, "S:" + w, "T:" + w, "L:" + w]
     if cd.name == "32":
         T.append(Target("data", ("data", cd.name, "0"), "B:" + w, "B:" + m, rel.air_relatives(w), anyc))
     else:
-        T.append(Target("data:with-checksum", ("data", cd.name, "1"), "B:" + w, "B:" + m + rel.cs_ext, rel.air_relatives(w), anyc))
+        T.append(Target("data:with-checksum", ("data", cd.name, rng.choice("1d")), "B:" + w, "B:" + m + rel.cs_ext, rel.air_relatives(w), anyc))
         T.append(Target("data:message-only", ("data", cd.name, "0"), "B:" + w, "B:" + m, rel.air_relatives(w), anyc))
         T.append(Target("cs", ("cs", cd.name), "B:" + w, "B:" + rel.cs_ext, rel.air_relatives(w), anyc))
     T.append(Target("all", ("all", cd.name), "B:" + w, "B:" + rel.allf[even], rel.air_relatives(w), anyc))
@@ -1028,11 +1068,11 @@ def disturb(b: Build, rel: Rel, rng, n: int):
     for _ in range(n):
         r = rng.random()
         if r < 0.25:
-            b.call("encode", cd.name, rng.choice("01") if cd.name == "32" else "1", rng.choice(rel.enc_relatives(t))[1])
+            b.call("encode", cd.name, rng.choice("01d") if cd.name == "32" else "1", rng.choice(rel.enc_relatives(t))[1])
         elif r < 0.35:
             b.call(*rng.choice(rel.other_class_calls(t)))
         elif r < 0.55:
-            op = rng.choice([("data", cd.name, rng.choice("01") if cd.c else "0"), ("all", cd.name)] + ([("cs", cd.name)] if cd.c else []))
+            op = rng.choice([("data", cd.name, rng.choice("01d") if cd.c else "0"), ("all", cd.name)] + ([("cs", cd.name)] if cd.c else []))
             b.call(*op, rng.choice(rel.air_relatives(w))[1])
         elif r < 0.67:
             tb = b.call("make", cd.name)
@@ -1054,6 +1094,9 @@ def scenario(g: str, b: Build, T: Target, rel, rng):
     rels = T.relatives
     if g == "relatives-then-target":
         picks = rng.sample(rels, min(len(rels), rng.randint(1, 3)))
+        key = [r for r in rels if r[0] in KEY_RELATIVES and r not in picks]
+        if key:
+            picks.insert(rng.randrange(len(picks) + 1), rng.choice(key))
         for _, lit in picks:
             b.call(*head, lit)
         h = b.call(*T.toks())
@@ -1106,13 +1149,16 @@ def scenario(g: str, b: Build, T: Target, rel, rng):
         b.do("read", f"@{h1}")
         if rel is not None and head[0] == "encode":
             cd = rel.cd
-            b.call("data", cd.name, "0", f"@{h1}", "?=B:" + rel.m)
+            w = T.promise  # the code word
+            even = head[2] != "0" if cd.name == "32" else True
+            b.call("data", cd.name, "0", f"@{h1}", promise("B:" + rel.m, w))
             if cd.c:
-                b.call("cs", cd.name, f"@{h1}", "?=B:" + rel.cs_ext)
-                d = b.call("data", cd.name, "1", f"@{h1}", "?=B:" + rel.m + rel.cs_ext)
-                b.call(*head, f"@{d}", "?=" + T.promise)  # extractor output (message ++ checksum field) re-encoded
+                b.call("cs", cd.name, f"@{h1}", promise("B:" + rel.cs_ext, w))
+                d = b.call("data", cd.name, "1", f"@{h1}", promise("B:" + rel.m + rel.cs_ext, w))
+                # extractor output (message ++ checksum field) re-encoded
+                b.call(*head, f"@{d}", promise(w, "B:" + rel.m + rel.cs_ext))
             a = b.call("all", cd.name, f"@{h1}")
-            b.call(*head, f"@{a}", "?=" + T.promise)
+            b.call(*head, f"@{a}", promise(w, "B:" + rel.allf[even]))
         b.call(*T.toks())
         return []
     if g == "other-containers":
@@ -1158,11 +1204,62 @@ def scenario(g: str, b: Build, T: Target, rel, rng):
             b.call(*head, f"@{x}")
         b.do("read", f"@{x}")
         return []
+    if g == "result-edited-then-passed-on":
+        # what a call handed out is edited by the caller (bits inverted "on the air", truncated, extended) and
+        # passed to the other entry points: they must read what the object holds now
+        h1 = b.call(*T.toks())
+        kind = b.kind[h1]
+        if kind == "N":
+            return []
+        for j in rng.sample(range(T.rlen), min(T.rlen, rng.randint(1, 3))) if T.rlen else []:
+            b.do("flip", f"@{h1}", j)
+        heads = []
+        if kind == "A":
+            heads = [("setparity", c, "1") for c in ("128", "68", "32")]
+        elif rel is not None:
+            cd = rel.cd
+            heads = [("data", cd.name, "0"), ("all", cd.name), ("encode", cd.name, "1"), ("crc8calc",)]
+            if cd.c:
+                heads += [("data", cd.name, rng.choice("1d")), ("cs", cd.name)]
+            if cd.name == "32":
+                heads.append(("encode", "32", "0"))
+        rng.shuffle(heads)
+        for hd in heads[:4]:
+            b.call(*hd, f"@{h1}")
+        if kind == "B" and rng.random() < 0.5:
+            b.do("extend", f"@{h1}", rbits(rng, rng.choice((1, 5, 8))))
+            for hd in heads[:2]:
+                b.call(*hd, f"@{h1}")
+        b.call(*T.toks())
+        b.do("read", f"@{h1}")
+        return []
+    if g == "other-flag-values-then-target":
+        # the optional flag (even_parity / include_cs5 / include_crc8) with its other values — passed and omitted —
+        # right before the call, on the same object and on equal ones
+        flags = [f for f in "01d" if f != head[2]]
+        x = b.call("new", mutable_version(T.arg))
+        for f in rng.sample(flags, len(flags)):
+            b.call(head[0], head[1], f, rng.choice((T.arg, f"@{x}")))
+        b.call(*T.toks(rng.choice((None, f"@{x}"))))
+        b.call(head[0], head[1], rng.choice(flags), f"@{x}")
+        b.call(*T.toks(f"@{x}"))  # (a promise is only evaluated while the object holds the content it is about)
+        b.call(*T.toks())
+        return []
     raise ValueError(g)
 
 
+def has_flag(head) -> bool:
+    return (head[0] in ("encode", "setparity") and head[1] == "32") or (head[0] == "data" and head[1] != "32")
+
+
+# relatives that stand for a whole class of "looks like the same input" mistakes: one of them is always tried
+KEY_RELATIVES = {"same-int-other-length", "same-prefix-longer", "same-suffix-longer", "prefix-of", "suffix-of",
+                 "little-endian-same-tobytes", "little-endian-same-int", "little-endian-same-bits",
+                 "same-tobytes-zero-padded", "same-int-longer", "leading-zero-octet-added", "leading-octet-dropped",
+                 "code-word-of-near-message", "near-message-same-form"}
 SCENARIOS = ("relatives-then-target", "object-passed-again-after-edit", "result-edited-call-repeated",
-             "result-kept-across-other-calls", "other-containers", "one-object-many-entry-points")
+             "result-kept-across-other-calls", "other-containers", "one-object-many-entry-points",
+             "result-edited-then-passed-on", "other-flag-values-then-target")
 
 
 def table_history(b: Build, rel: Rel, rng):
@@ -1190,7 +1287,7 @@ def table_history(b: Build, rel: Rel, rng):
     if rng.random() < 0.5:
         a = b.call("fill", cd.name, f"@{t2}", "B:" + rel.m)
         b.do("flip", f"@{a}", rng.randrange(cd.n))  # the returned table is the argument: the edit shows in @t2
-    b.call("encode", cd.name, "1", "B:" + rel.m, "?=B:" + rel.cw[True])
+    b.call("encode", cd.name, "1", "B:" + rel.m, promise("B:" + rel.cw[True], "B:" + rel.m))
     b.call("make", cd.name)
     b.do("read", f"@{t1}")
     b.do("read", f"@{t2}")
@@ -1225,7 +1322,8 @@ def random_history(rng, rels, length):
             else:
                 t = rng.choice(rel.forms(even))[1]
                 arg = rng.choice(["B:" + t, "B:" + rel.cw[even], rng.choice(rel.enc_relatives(t))[1], rng.choice(rel.air_relatives(rel.cw[even]))[1]])
-            ops = [("encode", cd.name, e01), ("encode", cd.name, e01), ("data", cd.name, rng.choice("01") if cd.c else "0"), ("all", cd.name), ("crc8calc",)]
+            ed = "d" if (even and rng.random() < 0.3) else e01
+            ops = [("encode", cd.name, ed), ("encode", cd.name, e01), ("data", cd.name, rng.choice("01d") if cd.c else "0"), ("all", cd.name), ("crc8calc",)]
             if cd.c:
                 ops.append(("cs", cd.name))
             st = rng.choice(ops) + (arg,)
@@ -1282,6 +1380,7 @@ class Histories:
         self.ctx, self.cds = ctx, cds
         self.env = real_env()
         self.lines, self.pending = [], []
+        self.recent = []  # the histories run just before (what they left behind may be what makes the next one fail)
 
     def run(self, steps, tag, sample=False):
         ctx = self.ctx
@@ -1307,7 +1406,8 @@ class Histories:
                 continue
             seen.add(kind)
             prio = 0 if kind in PROPERTY_KINDS else 1 if kind == "history-dependent-result" else 2
-            self.pending.append((prio, kind, steps[: i + 1], what, exp, act))
+            self.pending.append((prio, kind, steps[: i + 1], what, exp, act, list(self.recent)))
+        self.recent = (self.recent + [list(steps)])[-4:]
 
     def emit(self):
         """report what the histories found, failures of the property as stated first; the first few are reduced
@@ -1315,7 +1415,7 @@ class Histories:
         ctx = self.ctx
         self.pending.sort(key=lambda r: r[0])
         per_kind = {}
-        for n, (_, kind, steps, what, exp, act) in enumerate(self.pending):
+        for n, (_, kind, steps, what, exp, act, before) in enumerate(self.pending):
             per_kind[kind] = per_kind.get(kind, 0) + 1
             if per_kind[kind] > 4:
                 continue
@@ -1328,8 +1428,12 @@ class Histories:
 
             inp = {"history": steps_str(steps)}
             if n < 8:
-                if fails(steps):
-                    inp = {"history": steps_str(shrink_history(steps, fails)), "fails_on_new_copies_of_the_classes": True}
+                # alone, or after the histories that ran just before it on the same long-lived classes
+                for j in range(len(before) + 1):
+                    cand = concat(before[len(before) - j:] + [steps])
+                    if fails(cand):
+                        inp = {"history": steps_str(shrink_history(cand, fails)), "fails_on_new_copies_of_the_classes": True}
+                        break
                 else:
                     inp["fails_on_new_copies_of_the_classes"] = False
             ctx.fail(kind, inp, what + " (after the calls of the history)", expected=exp, actual=act)
@@ -1346,42 +1450,46 @@ class Histories:
 
 def run_histories(ctx, cds):
     rng = ctx.rng
-    boost = min(ctx.boost, 4)
+    boost = min(ctx.boost, 3)  # the classes are small: a changed source is searched three times as long, not 4-8 times
     Hs = Histories(ctx, cds)
-    sweeps = (2 if not ctx.thorough() else 20) * boost
+    sweeps = (8 if not ctx.thorough() else 60) * boost
     for s in range(sweeps):
         for cd in cds.values():
-            shape, m = message_for_history(rng, cd)
-            try:
-                rel = Rel(cd, m, rng, cds)
-                T = targets(rel)
-            except BaseException as ex:  # noqa  (a class that cannot even encode: reported by the plain streams)
-                ctx.count(f"hist:skipped:{cd.name}:{impl_error(ex)}")
-                continue
-            ctx.count(f"hist:message:{shape}")
-            for ti, tg in enumerate(T):
-                for gi, g in enumerate(SCENARIOS):
+            rel = None
+            for gi, g in enumerate(SCENARIOS):
+                # every (entry point, scenario) once per sweep and class, a new message per scenario
+                shape, m = message_for_history(rng, cd)
+                try:
+                    rel = Rel(cd, m, rng, cds)
+                    T = targets(rel)
+                except BaseException as ex:  # noqa  (a class that cannot even encode: reported by the plain streams)
+                    ctx.count(f"hist:skipped:{cd.name}:{impl_error(ex)}")
+                    continue
+                ctx.count(f"hist:message:{shape}")
+                for ti, tg in enumerate(T):
                     if g == "other-containers" and not tg.same_promise and tg.promise is not None:
                         continue
-                    # every (entry point, scenario) once per sweep; the message changes with the target now and then
+                    if g == "other-flag-values-then-target" and not has_flag(tg.head):
+                        continue
                     b = Build()
                     labs = scenario(g, b, tg, rel, rng)
                     ctx.count(f"hist:entry:{tg.name.split(':')[0]}[{cd.name}]")
                     for lab in labs:
                         ctx.count(f"hist:relative:{lab}")
                     Hs.run(b.steps, "scenario:" + g, sample=(s == 0 and cd.name == "32" and ti == 0 and gi == 1))
-            b = Build()
-            table_history(b, rel, rng)
-            Hs.run(b.steps, "scenario:tables")
+            if rel is not None:
+                b = Build()
+                table_history(b, rel, rng)
+                Hs.run(b.steps, "scenario:tables")
         for _ in range(3):
             for tg in checksum_targets(rng):
-                for g in SCENARIOS:
+                for g in SCENARIOS[:6]:  # (the last two need a class)
                     b = Build()
                     scenario(g, b, tg, None, rng)
                     ctx.count(f"hist:entry:{tg.name}")
                     Hs.run(b.steps, "scenario:" + g)
         Hs.flush()
-    n_rand = (150 if not ctx.thorough() else 4000) * boost
+    n_rand = (500 if not ctx.thorough() else 6000) * boost
     for i in range(n_rand):
         cd = rng.choice(list(cds.values()))
         try:
